@@ -748,6 +748,10 @@ class AsyncServer(base_server.BaseServer):
                                        pkt.data)
             elif pkt.packet_type == packet.BINARY_EVENT or \
                     pkt.packet_type == packet.BINARY_ACK:
+                if not isinstance(pkt.data, list):
+                    # (an attachment could be put in its place)
+                    raise ValueError('The payload of a binary packet is a '
+                                     'list.')
                 if eio_sid in self.environ or any(
                         self.manager.is_connected(
                             self.manager.sid_from_eio_sid(eio_sid, n), n)
